@@ -33,6 +33,15 @@ POISON = 'BODY-RAN-IN-REPLAY'
 CAPTURES = ('all', 'none', 'false', 'pos1', 'name_b', 'pos1_name_b')
 
 
+def _resolve_alias_params(step):
+    fault = step.get('resolver_fault')
+    if fault == 'resolver_raises':
+        raise RuntimeError('alias parameter resolver failed on purpose')
+    if fault == 'resolver_no_placeholder':
+        return {'another_name': step['name']}
+    return {'name': step['name']}
+
+
 def captured_args(kind, capture):
     from playback.tape_recorder import CapturedArg
     off = 0 if kind == 'static' else 1
@@ -199,7 +208,7 @@ def build_class(prog, rec, W, decorated=True):
         alias = d['alias']
         if d.get('resolver'):
             alias = alias + '.{name}'
-            kw['alias_params_resolver'] = lambda *a, **k: {'name': W.cur()['name']}
+            kw['alias_params_resolver'] = lambda *a, **k: _resolve_alias_params(W.cur())
         fb = d.get('fallback')
         if fb:
             if fb['kind'] == 'list':
